@@ -16,7 +16,7 @@ META = dict(
     "caller cancelled, 30 s timer fires, peer EOF, peer reset, unsolicited response} with 2-3 concurrent callers, concurrency limit 1 (as shipped) "
     "and 2-3 (the FIFO mechanism), insecure and secure sessions, preemptive injection between loop iterations bounded by P; oracle: own tag, same "
     "connection, events exactly once to the sink, abandoned connection after timeout/cancel/drop, no caller pending at the horizon and failed ones hold "
-    "AccessoryDisconnectedError (or their own CancelledError) Split sweep: every two-piece split position of a response x {Content-Length, chunked (1/2 chunks), header-case variants} x {plain, encrypted} x {with, without an interleaved event}, followed by a second request; further configurations under byte-wise reads and reads that end inside a block. Also: body-less answers (no Content-Length, Content-Length: 0) and a response and an event within one read.",
+    "AccessoryDisconnectedError (or their own CancelledError) Split sweep: every two-piece split position of a response x {Content-Length, chunked (1/2 chunks), header-case variants} x {plain, encrypted} x {with, without an interleaved event}, followed by a second request; further configurations under byte-wise reads and reads that end inside a block. Also: body-less answers (no Content-Length, Content-Length: 0) and a response and an event within one read. Also sockets whose close completes late (unsent bytes in the write buffer): requests out on a connection that is being dropped fail at once.",
     note="environment model = VirtualLoop/MemTransport (conformance-tested against stock asyncio); bounded depth D and preemptions P as reported",
     design_ref="DESIGN.md §4 C08",
     debug_pass="thorough",
